@@ -866,6 +866,14 @@ func (fr *Frame) staticCall(in ssa.Instruction, fn *ssa.Function, mc *ssa.MakeCl
 	fc := fr.fc
 	sp := fc.g.specFor(fn)
 	name := fnName(fn)
+	if fr.isTop && fc.spec != nil {
+		// `follows B after A`: a call of B counts whether it is inlined, applied by contract or havocked
+		for _, c := range fc.spec.Follows {
+			if c.Args[0] == name || strings.HasSuffix(name, "."+c.Args[0]) {
+				fc.folB[c.Ord] = append(fc.folB[c.Ord], propFlag{block: fc.curBlock, seq: fc.seq, cond: guard, callee: name})
+			}
+		}
+	}
 	if sp != nil && sp.Model != "" {
 		mf := fc.g.fnByName[sp.Model]
 		if mf == nil || mf.Blocks == nil {
@@ -995,6 +1003,7 @@ func (fr *Frame) havocCall(in ssa.Instruction, name string, args []Val, resT typ
 	setRes(res)
 	fr.recordPropagation(in, name, res, guard)
 	fr.recordTolerated(name, res, guard, nst)
+	fr.recordFollows(name, nil, res, guard, nst)
 	return nst
 }
 
@@ -1044,6 +1053,34 @@ func (fr *Frame) recordPropagation(in ssa.Instruction, name string, res Val, gua
 			continue
 		}
 		fc.propFlags[c.Ord] = append(fc.propFlags[c.Ord], propFlag{block: fc.curBlock, seq: fc.seq, cond: sAnd(guard, sNot(sEq(errV.Sub[0].S, "0"))), callee: name})
+	}
+}
+
+// recordFollows: bookkeeping for `follows B after A when E`.
+func (fr *Frame) recordFollows(name string, sp *FuncSpec, res Val, guard string, st *State) {
+	fc := fr.fc
+	if !fr.isTop || fc.spec == nil {
+		return
+	}
+	match := func(f string) bool { return f == name || strings.HasSuffix(name, "."+f) }
+	for _, c := range fc.spec.Follows {
+		if match(c.Args[1]) {
+			env := fr.specEnv(st, nil, nil)
+			if sp != nil {
+				for i, rn := range sp.Results {
+					if rn == "" || rn == "_" {
+						continue
+					}
+					if res.Sub != nil && i < len(res.Sub) && kindOf(res.T) == KTuple {
+						env.names["$"+rn] = res.Sub[i]
+					} else if i == 0 && len(sp.Results) == 1 {
+						env.names["$"+rn] = res
+					}
+				}
+			}
+			env.lookup = func(n string, st2 *State) (Val, bool) { return fr.lookupLocalAt(n, st2, fc.curBlock, nil) }
+			fc.folA[c.Ord] = append(fc.folA[c.Ord], propFlag{block: fc.curBlock, seq: fc.seq, cond: sAnd(guard, env.bool(c.Expr)), callee: name})
+		}
 	}
 }
 
@@ -1385,6 +1422,7 @@ func (fr *Frame) applyContract(sp *FuncSpec, fn *ssa.Function, name string, pnam
 	}
 	fr.recordPropagation(in, name, res, guard)
 	fr.recordTolerated(name, res, guard, nst)
+	fr.recordFollows(name, sp, res, guard, nst)
 	return res, nst
 }
 
